@@ -51,5 +51,13 @@ CLAIMED = {
    text="Proof level for KafkaClient._make_request_to_broker and its two closures: exactly one timer per request armed with the client timeout (or max(timeout, minimum) for group joins); the timeout callback records a RequestTimedOutError failure before it cancels the request and disconnects iff configured; the completion callback always leaves the timer inactive (released when the reply comes first) and substitutes the timeout failure when one was recorded. Late replies to a timed-out (tombstoned) request fire nothing (brokerclient.handleResponse, C06 invariant).",
    note="That the timer fires at issued+T is the reactor's contract: the bound is proved in timer events, not seconds. Trusted: Twisted Deferred/IDelayedCall contracts, pyvc.",
    ref='DESIGN.md section 8 C11, section 12'),
+ 'C17': dict(
+   text="Proof level for the safety core of 'never idle': rejoin_after_error is proved, branch by branch, to set the rejoin flag and leave a pending rejoin timer for every Kafka error (short backoff for rebalance / coordinator moved, long otherwise), to stop (surfacing the error through stop()) only for non-Kafka errors; a scheduled rejoin is always a PENDING timer (invariant preserved by join_and_sync and the other entry points); a Kafka error escaping the join/sync sequence is classified like any other (fix 9b13ecc). The liveness sentence (rejoins within bounded time once faults cease) is not decided.",
+   note="A non-Kafka exception escaping _join_and_sync is only logged (pinned by test_join_fatal_exception): KNOWN-FINDING. Trusted: reactor timers fire, Twisted contracts.",
+   ref='DESIGN.md section 8 C17, section 12'),
+ 'C16': dict(
+   text="Proof level for the coordinator-side fencing units: _heartbeat sends only while not stopping, no rejoin is needed and no heartbeat is in flight; join_and_sync starts an exchange only when none is in flight; rejoin_after_error stops the consumers of the old generation (on_group_leave) before it schedules a rejoin on eviction errors and keeps one pending rejoin. ConsumerGroup's consumer creation/teardown and 'no request after stop' across the @inlineCallbacks sequence are covered by the bounded scenario stand-in.",
+   note="on_group_leave/on_join_prepare of ConsumerGroup are represented by contracts. Trusted: Twisted contracts.",
+   ref='DESIGN.md section 8 C16, section 12'),
 }
 NOT_APPLICABLE = {}
